@@ -72,6 +72,15 @@ func (t *Tree) FeedLeaves(jsonLex lexeme.LexEvent) bool {
 	return false
 }
 
+func (t *Tree) isLeaf(v validator) bool {
+	for _, l := range t.leaves {
+		if l == v {
+			return true
+		}
+	}
+	return false
+}
+
 func (t *Tree) setLeavesIndexes() {
 	t.leavesIndexes = t.leavesIndexes[:0]
 	for i := range t.leaves {
@@ -101,7 +110,9 @@ func (t *Tree) feedLeaf(leaf validator, jsonLex lexeme.LexEvent, indexOfLeaf int
 	if done { // validation of node completed
 		parent := leaf.parent()
 		leaf.setParent(nil) // remove the pointer to simplify garbage collection in the future
-		if parent == nil {
+		if parent == nil || t.isLeaf(parent) {
+			// Several alternatives of one node ("or") may complete on the same
+			// value: the parent continues once, not once per alternative.
 			delete(t.leaves, indexOfLeaf)
 		} else {
 			t.leaves[indexOfLeaf] = parent // step back to parent
